@@ -6,6 +6,8 @@
    in Properties_C12 / C11 / C26 (clause-level soundness) and is assembled per run by the trace check. *)
 From Coq Require Import ZArith QArith List Bool.
 From OsmtV.Sem Require Import Syntax Eval Model SemProofs.
+From OsmtV.Sat Require Import PropLogic RupCheck.
+From OsmtV.Trace Require Import TraceSound.
 Import ListNotations.
 
 Theorem c01_certified_counterexample : forall S M A, model_ok S M A = true -> sat S A.
@@ -22,3 +24,25 @@ Print Assumptions c01_unsat_answer_refuted.
 Theorem c01_sat_subset : forall S A B, (forall a, In a A -> In a B) -> sat S B -> sat S A.
 Proof. intros S A B Hsub [I [Hwf H]]. exists I. split; [exact Hwf | intros a Ha; apply H, Hsub, Ha]. Qed.
 Print Assumptions c01_sat_subset.
+
+(* The positive direction, for ALL traces of the abstract CDCL(T) machine: if every input clause is a
+   consequence of the assertions (clausal form: Properties_C02 tseitin_complete / C13), every theory clause is
+   T-valid (C11, C26) and every learnt, derived or final clause passes reverse unit propagation against the
+   clauses seen before it (C12), then a trace that reaches the empty clause — or a final conflict that is false
+   under the activation of the live levels — refutes the assertions.  Whatever the heuristics did. *)
+Theorem c01_trace_sound : forall (Interp : Type) (satisfies : Interp -> Prop) (induced : Interp -> assignment) evs,
+  (forall I, satisfies I -> models (induced I) (inputs evs)) ->
+  (forall I, models (induced I) (theory_clauses evs)) ->
+  forall db, replay [] evs = Some db ->
+  (In [] db -> forall I, ~ satisfies I) /\
+  (forall final, In final db -> (forall I, satisfies I -> clause_true (induced I) final = false) -> forall I, ~ satisfies I).
+Proof.
+  intros Interp satisfies induced evs Hin Hth db H. split.
+  - exact (trace_refutes Interp satisfies induced evs Hin Hth db H).
+  - intros final. exact (trace_refutes_under_assumptions Interp satisfies induced evs Hin Hth db final H).
+Qed.
+Print Assumptions c01_trace_sound.
+
+Example c01_trace_nonvacuous :
+  replay [] [Input [1; 2]; Input [-1; 2]; Theory [-2; 3]; Input [-3]; Derive [2]; Derive []]%Z <> None.
+Proof. vm_compute. discriminate. Qed.
